@@ -70,7 +70,9 @@ class UnitarySerializedEmulator(IndependentSubcircuitsBackend):
                 if param.classical:
                     argv.append(val)
                 else:
-                    qind.append(val.alias_index)
+                    # The position in the fundamental register, which differs
+                    # from val.alias_index when val is taken from a map alias.
+                    qind.append(val.resolve_qubit()[1])
 
             # This is the dense submatrix
             dsub = gatedef.ideal_unitary(*argv)
